@@ -211,3 +211,91 @@ Theorem C01_history_examples :
               j_required_has [112]%N (gen_erased 20 true s' ex_body) = false).
 Proof. exact history_examples. Qed.
 Print Assumptions C01_history_examples.
+
+(* ---- WHERE the pattern rewriter runs (Model_C01 section 10; added after seed C01_d) ----
+   The conversion pipeline of one parameter location: as_json_schema (keyword filter, nullable wrapping,
+   update_pattern_in_schema on the keywords the author wrote, type: string for headers), parameters_to_json_schema,
+   the path defaults of get_schema_for_location (all path parameters required, minLength 1), the header format of
+   make_positive_strategy.  The theorems quantify over EVERY list of later steps that does not call the rewriter. *)
+
+(* The pattern of a parameter schema is rewritten only if the DECLARED schema carries a truthy minLength or maxLength:
+   all locations, all declared schemas *)
+Theorem C01_pattern_rewritten_only_under_declared_length : forall steps l d g,
+  no_rewrite_step steps = true -> gen_prop_with steps l d = Some g ->
+  (g_rewritten g = true \/ g_pattern g <> d_pattern d) -> declared_length d = true.
+Proof. exact rewritten_only_under_declared_length. Qed.
+Print Assumptions C01_pattern_rewritten_only_under_declared_length.
+
+(* ... and without one the conversion never raises and the generation schema carries the declared pattern *)
+Theorem C01_undeclared_length_pattern_is_declared : forall steps l d,
+  no_rewrite_step steps = true -> declared_length d = false ->
+  (forall g, gen_prop_with steps l d = Some g -> g_pattern g = d_pattern d /\ g_rewritten g = false) /\
+  (exists g, gen_prop_with steps l d = Some g).
+Proof. exact undeclared_length_pattern_is_declared. Qed.
+Print Assumptions C01_undeclared_length_pattern_is_declared.
+
+(* Path parameters without declared length keywords: the generation schema's pattern is the declared pattern; the implied
+   minLength 1 sits NEXT to it (plain string parameters), nothing is folded into the pattern *)
+Theorem C01_path_parameter_pattern_is_declared : forall d, d_min d = None -> d_max d = None ->
+  exists g, gen_prop LPath d = Some g /\ g_pattern g = d_pattern d /\ g_rewritten g = false /\ k_max (g_kw g) = None /\
+            k_min (g_kw g) = (if is_string (d_type d) && negb (is_ntrue (d_nullable d)) then Some 1 else None).
+Proof. exact path_pattern_is_declared. Qed.
+Print Assumptions C01_path_parameter_pattern_is_declared.
+
+(* Composition with C01_schema_keywords_sound_partial: a string the generation dict accepts is accepted by the DECLARED
+   pattern / minLength / maxLength - unconditionally when no length is declared (pipeline_region is then true), inside the
+   regions of the rewriter evaluated on the DECLARED bounds otherwise (refuted outside: the five rewriter witnesses above) *)
+Theorem C01_generation_value_conforms_partial : forall catp steps l d g s,
+  no_rewrite_step steps = true -> gen_prop_with steps l d = Some g -> pipeline_region d s = true ->
+  kw_accepts catp (g_kw g) s -> decl_accepts catp d s.
+Proof. exact generation_value_conforms. Qed.
+Print Assumptions C01_generation_value_conforms_partial.
+
+(* The whole location, all parameter lists (duplicate names included): every property of the object handed to from_schema is
+   the generation schema of one of the parameters ... *)
+Theorem C01_location_schema_properties : forall l ps props req name g,
+  location_schema l ps = Some (props, req) -> assoc_get name props = Some g ->
+  exists p, In p ps /\ p_name p = name /\ gen_prop l (p_decl p) = Some g.
+Proof. exact location_schema_props. Qed.
+Print Assumptions C01_location_schema_properties.
+
+(* ... every path parameter is required and has a property ... *)
+Theorem C01_path_parameters_all_required : forall ps props req,
+  location_schema LPath ps = Some (props, req) ->
+  req = map fst props /\ forall p, In p ps -> has_key (p_name p) req = true.
+Proof. exact path_all_required. Qed.
+Print Assumptions C01_path_parameters_all_required.
+
+(* ... and both statements above hold for each property of the location object *)
+Theorem C01_location_values_conform_partial : forall catp l ps props req name g s,
+  location_schema l ps = Some (props, req) -> assoc_get name props = Some g ->
+  exists p, In p ps /\ p_name p = name /\
+    ((g_rewritten g = true \/ g_pattern g <> d_pattern (p_decl p)) -> declared_length (p_decl p) = true) /\
+    (pipeline_region (p_decl p) s = true -> kw_accepts catp (g_kw g) s -> decl_accepts catp (p_decl p) s).
+Proof. exact location_values_conform. Qed.
+Print Assumptions C01_location_values_conform_partial.
+
+(* regression sentinel (what the seeded change C01_d does): with update_pattern_in_schema called on the property AFTER the
+   path default minLength 1, a path parameter ^[a-z]$ that declares NO length gets its pattern rewritten and the value abc is
+   generated although the declared pattern rejects it - outside every region of the recorded rewriter findings, whose
+   witnesses all carry declared bounds *)
+Theorem C01_rewriter_after_path_default_sentinel_refuted : forall catp,
+  exists g, gen_prop_with seeded_dict_steps LPath d_single = Some g /\
+            declared_length d_single = false /\ pipeline_region d_single s_abc = true /\
+            g_rewritten g = true /\ g_pattern g <> d_pattern d_single /\
+            kw_accepts catp (g_kw g) s_abc /\ ~ decl_accepts catp d_single s_abc.
+Proof. exact seeded_order_refuted. Qed.
+Print Assumptions C01_rewriter_after_path_default_sentinel_refuted.
+
+(* non-vacuity / sensitivity: the same parameter under the code as it is keeps ^[a-z]$ with minLength 1 next to it; a parameter
+   WITH declared lengths (\A[a-z]+\Z, 2..5) is rewritten in every location (the path one gets minLength 1 in addition) inside
+   all regions; a header location with a duplicate name: the later parameter wins, required lists each name once *)
+Theorem C01_pipeline_examples :
+  (exists g, gen_prop LPath d_single = Some g /\ g_pattern g = Some w_single /\ g_rewritten g = false /\ k_min (g_kw g) = Some 1) /\
+  (forall l, exists g, gen_prop l d_ok = Some g /\ g_rewritten g = true /\ g_pattern g <> d_pattern d_ok /\
+                       k_min (g_kw g) = (if is_path_loc l then Some 1 else None) /\ pipeline_region d_ok s_abc = true) /\
+  (exists props, location_schema LHeader [mkParam [120%N] false (mkDecl (Some TyString) NAbsent false None None None);
+                                          mkParam [121%N] true d_single; mkParam [120%N] true (mkDecl None NTrue false None None None)]
+                 = Some (props, [121%N] :: [[120%N]]) /\ map fst props = [[120%N]; [121%N]]).
+Proof. exact pipeline_examples. Qed.
+Print Assumptions C01_pipeline_examples.
